@@ -13,7 +13,7 @@ CONSTANTS NS = 1
   IdleTO = 10
   HardTO = 30
   DropTO = 10
-  D = 4
+  D = 5
 INIT Init
 NEXT Next
 CHECK_DEADLOCK FALSE
